@@ -304,7 +304,7 @@ def equivalent(a, b, extra_rules=None) -> str:
             return Verdict.EQUAL
         # opaque sub-terms are abstracted to symbols so that the residual algebra stays small
         small = abstract_opaque(d)
-        if sp.count_ops(small) <= 400:
+        if sp.count_ops(small) <= 400 and not _numerically_nonzero(small):
             if sp.simplify(small) == 0:
                 return Verdict.EQUAL
             if sp.expand(sp.expand_trig(small)) == 0:
@@ -325,6 +325,31 @@ def equivalent(a, b, extra_rules=None) -> str:
     except Exception:
         pass
     return Verdict.DIFFERENT
+
+
+def _numerically_nonzero(t) -> bool:
+    """Identity testing before the (potentially very slow) symbolic simplification: a scalar algebraic residual that
+    evaluates away from zero at a random positive rational point is not the zero function.  True only on a definite
+    numeric refutation at two independent points; anything that does not evaluate to a number answers False."""
+    import random
+    syms = sorted(t.free_symbols, key=str)
+    if not syms or len(syms) > 40:
+        return False
+    rnd = random.Random(20240917)
+    hits = 0
+    for _ in range(3):
+        sub = {s: sp.Rational(rnd.randint(1, 997), rnd.randint(7, 211)) for s in syms}
+        try:
+            v = complex(t.xreplace(sub).evalf(30))
+        except Exception:
+            return False
+        if v != v or abs(v) in (float("inf"),):
+            continue
+        if abs(v) > 1e-12:
+            hits += 1
+        else:
+            return False
+    return hits >= 2
 
 
 def _has_array_structure(t) -> bool:
